@@ -9,6 +9,7 @@ CONSTANTS
   InMenu = {1, 2, 3, 4}
   Trips = {0, 1, 2, 3}
   FnMenu = {1, 2, 3, 4}
+  CarryMenu = {"i0", "i1", "f2", "bT"}
   LitOnly = FALSE
   Sim = TRUE
 INVARIANT DesignOK
